@@ -443,6 +443,7 @@ macro_rules! matrix { ($m:ident, $($a:tt)*) => { $m!($($a)*;
     Range<u32>, Range<String>, RangeFrom<String>, RangeTo<String>, RangeInclusive<String>, RangeToInclusive<String>, Vec<Range<u32>>, Vec<RangeInclusive<String>>,
     Mutex<String>, RwLock<Vec<String>>, Mutex<Vec<Box<str>>>, Vec<Mutex<String>>, Box<Mutex<Vec<u8>>>, RwLock<u8>,
     BinaryHeap<u32>, BinaryHeap<String>, Vec<BinaryHeap<u8>>, BinaryHeap<Vec<u8>>, BinaryHeap<(u8, String)>,
+    HashMap<u64, u8>, HashMap<String, bool>, HashMap<u32, u8>, HashMap<u128, u64>, HashMap<u16, u8>, HashMap<(u64, u8), u8>, HashSet<(u64, u8)>, HashMap<u8, u64>, HashMap<u64, (u8, u8, u8)>,
     HashMap<u32, String>, HashMap<String, Vec<u8>>, HashSet<String>, HashSet<u16>, Vec<HashMap<u8, String>>, HashMap<u8, u8>, Option<HashSet<String>>, (HashMap<u16, String>, String),
     &'static String, &'static str, Vec<&'static str>, (&'static [u8], String), Vec<&'static String>,
     ZstHeap, Declared, Picky, Vec<Picky>, Vec<[Picky; 3]>, [[Picky; 2]; 2], Box<[[Picky; 3]]>, BinaryHeap<[u8; 3]>, Vec<ZstHeap>, Vec<Declared>, Option<Vec<ZstHeap>>, Box<Vec<ZstHeap>>, Vec<Vec<ZstHeap>>, [ZstHeap; 3], (ZstHeap, String), HashMap<u8, ZstHeap>, BinaryHeap<u8>, Box<[ZstHeap]>, Vec<(ZstHeap, u8)>, Vec<[ZstHeap; 3]>,
